@@ -32,6 +32,8 @@ void fx_init(fx_t *x)
     case_order(x->M, x->perm_c);
     if (x->usepr) { long len; double *pr = P_list("pr", &len); if (len != x->n) verdict_skip("usepr without pr list"); for (int i = 0; i < x->n; ++i) x->perm_r[i] = (int_t)pr[i]; }
     x->hashA = hash_supermatrix_nc(x->vt, &x->M->A);
+    { csc_q F = factored_view(x->M); int sr = structural_rank(x->n, F.ptr, F.ind); feat("sprank_deficit", x->n - sr);
+      if (sr < x->n) hx_ctx_add("struct_rank_deficient"); }
 }
 
 void fx_options(fx_t *x, superlumt_options_t *o, fact_t fact, trans_t trans, yes_no_t refact)
@@ -206,3 +208,65 @@ void prop_C02(void) { factor_and_check(2); }
 void prop_C09(void) { factor_and_check(9); }
 void prop_C03(void) { factor_and_check(3); }
 void prop_C04(void) { g_mon_strict_info = 0; factor_and_check(4); }
+
+/* ------------------------------------------------------------------ C05: memory safety / slot bound / diagnosed overflow */
+void prop_C05(void)
+{
+    fx_t x; fx_init(&x);
+    const slu_vt *vt = x.vt; int n = x.n;
+    const char *via = P_str("via", "gstrf");
+    /* when the case asks for tight U / L-subscript estimates the library's diagnosed exit is an admissible outcome */
+    g_exit_policy = P_int("tight_fill", 0) ? EXITPOL_ALLOW_DIAG : EXITPOL_VIOLATION;
+    void *bval = NULL; SuperMatrix B;
+    if (!strcmp(via, "gssv") || x.M->stype) { make_dense_B(vt, n, 1, n > 0 ? n : 1, &bval, &B, 0); fx_factor_gssv(&x, &B); }
+    else fx_factor_gstrf(&x);
+    csc_q F = factored_view(x.M);
+    feat("info", x.info);
+    fx_check_A_unchanged(&x);
+    if (x.info != 0) { feat("singular", 1); if (x.info < 0 || x.info > n) verdict_fail("oracle:info_out_of_range", "info=%d with n=%d and no allocation failure injected", (int)x.info, n); verdict_pass(); }
+    fx_check_structure(&x, 1);     /* includes pairwise-disjoint nzval / rowind / ucol extents */
+    char msg[400];
+    if (check_reconstruction(vt, &F, x.D, x.perm_r, x.perm_c, msg, sizeof msg)) verdict_fail("oracle:reconstruction_bound", "%s", msg);
+    if (x.have_opt) fx_finish_gstrf(&x);
+    verdict_pass();
+}
+
+/* ------------------------------------------------------------------ C06: singular matrices through the simple driver / p?gstrf */
+void prop_C06(void)
+{
+    fx_t x; fx_init(&x);
+    const slu_vt *vt = x.vt; int n = x.n;
+    const char *via = P_str("via", "gssv");
+    g_exit_policy = EXITPOL_VIOLATION;
+    void *bval = NULL, *b0 = NULL; SuperMatrix B; int nrhs = (int)P_int("nrhs", 1), ldb = n > 0 ? n : 1; size_t bbytes = 0;
+    if (!strcmp(via, "gssv") || x.M->stype) {
+        make_dense_B(vt, n, nrhs, ldb, &bval, &B, 1); bbytes = vt->esize * (size_t)ldb * nrhs; b0 = hx_malloc(bbytes + 1); memcpy(b0, bval, bbytes);
+        fx_factor_gssv(&x, &B);
+    } else fx_factor_gstrf(&x);
+    feat("info", x.info);
+    fx_check_A_unchanged(&x);
+    if (!(x.info > 0 && x.info <= n)) { char pc[200] = "", pr[200] = ""; size_t o1 = 0, o2 = 0;
+        for (int i = 0; i < n && i < 24; ++i) { o1 += snprintf(pc + o1, sizeof pc - o1, "%d ", (int)x.perm_c[i]); o2 += snprintf(pr + o2, sizeof pr - o2, "%d ", (int)x.perm_r[i]); }
+        verdict_fail("oracle:singular_not_reported", "exactly singular input but info=%d (n=%d); perm_c=[%s] perm_r=[%s]", (int)x.info, n, pc, pr); }
+    if (b0 && memcmp(b0, bval, bbytes)) verdict_fail("oracle:B_modified_on_singular", "the simple driver returned info=%d but B was overwritten", (int)x.info);
+    /* returned objects must be safe to inspect: C09 predicate (structure only) */
+    if (!is_perm(x.perm_c, n)) verdict_fail("oracle:perm_c_not_bijection", "perm_c is not a permutation");
+    if (!is_perm(x.perm_r, n)) verdict_fail("oracle:perm_r_not_bijection", "perm_r is not a permutation after a singular return");
+    const char *bad = validate_LU(vt, n, &x.L, &x.U, 1, 1);
+    if (bad) { char cls[64]; snprintf(cls, sizeof cls, "%s", bad); char *c = strchr(cls, ':'); if (c) *c = 0; char sig[100]; snprintf(sig, sizeof sig, "oracle:LU_malformed:%s", cls); verdict_fail(sig, "%s", bad); }
+    x.D = extract_LU(vt, n, &x.L, &x.U);
+    /* consistency: info-1 is the first zero on U's diagonal */
+    int first0 = -1; for (int j = 0; j < n; ++j) { zq u = x.D->U[(size_t)j * n + j]; if (u.re == 0 && u.im == 0) { first0 = j; break; } }
+    if (first0 + 1 != x.info) verdict_fail("oracle:info_inconsistent_with_U", "info=%d but the first exactly-zero diagonal entry of the returned U is at position %d", (int)x.info, first0 + 1);
+    /* expected position for provable families: list 'zerocols' = columns of the factored matrix that are identically zero / later duplicates */
+    long nz, nd; double *zc = P_list("singcols", &nz); double *dp = P_list("duppair", &nd);
+    if (nz > 0 || nd == 2) { int exp = n + 1; for (long k = 0; k < nz; ++k) { int pos = x.perm_c[(int)zc[k]] + 1; if (pos < exp) exp = pos; }
+        if (nd == 2) { int pa = x.perm_c[(int)dp[0]] + 1, pb = x.perm_c[(int)dp[1]] + 1; int pos = pa > pb ? pa : pb; if (pos < exp) exp = pos; }
+        feat("expected_info", exp);
+        if (exp != x.info) verdict_fail("oracle:info_wrong_position", "info=%d but the first singular column of A*Pc is at position %d", (int)x.info, exp); }
+    /* destroy must be safe */
+    if (x.have_opt) fx_finish_gstrf(&x);
+    g_track = 1; Destroy_SuperNode_SCP(&x.L); Destroy_CompCol_NCP(&x.U); g_track = 0;
+    feat("in_supernode", x.D->maxsup);
+    verdict_pass();
+}
